@@ -212,6 +212,8 @@ def run(chk):
     # the safety index is a function of P_A alone: far-tail probabilities, asked in different orders within one process
     import math
     sweep = [10.0 ** (-12 + 0.2 * k) for k in range(0, 58)] + [1.2e-10, 1.4e-10, 3e-11, 4e-11, 0.5]
+    # probabilities below 1e-12 (1 - P_A is no longer representable there: a quantile taken at the complement shows) and above 1/2 (negative index)
+    sweep += [10.0 ** (-k) for k in range(13, 101)] + [3e-14, 7e-17, 0.6, 0.9, 0.99]
     for order in (sorted(sweep), sorted(sweep, reverse=True), sweep[::3] + sweep[1::3] + sweep[2::3]):
         for pa in order:
             try:
@@ -230,7 +232,7 @@ def run(chk):
                        'P_RAM parameter (S_a x S_m sign/zero cases at M_sigma = 1/4), hysteresis tables of up to MaxRows rows (closed/half, pass 1/2, N = 1000*2^e) for the accumulation, '
                        'and (beta, P_L) for the safety factors; every state is evaluated through the real accessors / classes with exact expectation. '
                        'Non-trivial: accumulation tables with a half hysteresis and no early failure; every other lattice point.')
-    chk.cov['rule'] += ' Accumulation tables allow half hystereses in both passes; very flat curves (|d| = 0.004); two-point batches (point B = point A at half the damage parameter, both orders); compute_beta swept over 1e-12..0.5 in three call orders.'
+    chk.cov['rule'] += ' Accumulation tables allow half hystereses in both passes; very flat curves (|d| = 0.004); two-point batches (point B = point A at half the damage parameter, both orders); compute_beta swept over 1e-100..0.99 in three call orders.'
     chk.cov['exhaustive'] = True
     chk.assumptions += ['compute_beta (root search of the normal CDF) is only spot-checked numerically: no lattice exists for it',
                         'P_RAJ damage accumulation (crack opening loop) is not modelled; it is exercised through C10']
